@@ -37,7 +37,8 @@ DEFS = ['', '0.0', '0.', '0', 'p*q', 'W-W', 'G', '0.5', '0.9*G', '00.0', '0.0 ',
 @st.composite
 def case(draw):
     ops = []
-    n = draw(st.integers(3, 25))
+    from harness import gen
+    n = draw(st.integers(3, gen.size(25, 70)))
     for _ in range(n):
         k = draw(st.integers(0, 9))
         if k <= 5:
